@@ -4,6 +4,11 @@
                                              (commitment of the resulting key/value set), then "end"
    state <pre|post> <block> | <block> ...  -> per block "root <term>", then "end"
      block items: dep:a:c rep:a:c non:a:n sto:a:k:v dec:c:casm mig:c:casm
+   trie1 <ped|pos> <height> k:v[:n] ...  -> the LEGACY flat trie model (Trie1.v): one line per op, "root <term>"
+                                             (Put then Hash()), "skip" (op written k:v:n = Put without Hash())
+                                             or "error"; then "rootkey <bits|-|nil>" and, sorted by key, one
+                                             "node <key> <left|nil> <right|nil> <stored value term>" per stored
+                                             node (bits as 0/1 strings, "-" = the empty path), then "end"
    Terms are printed as S-expressions; the harness evaluates them with core/crypto. *)
 let rec show_term (t : term) : string = match t with
   | TC z -> "(C " ^ hex_of_z z ^ ")"
@@ -13,6 +18,15 @@ let rec show_term (t : term) : string = match t with
   | TPedN l -> "(PN " ^ String.concat " " (List.map show_term l) ^ ")"
   | TAddLen (a, n) -> "(A " ^ show_term a ^ " " ^ string_of_int (int_of_nat n) ^ ")"
   | TPath p -> "(B " ^ (if p = [] then "-" else String.concat "" (List.map (fun b -> if b then "1" else "0") p)) ^ ")"
+
+let show_bits (p : bool list) : string =
+  if p = [] then "-" else String.concat "" (List.map (fun b -> if b then "1" else "0") p)
+let show_obits (p : bool list option) : string = match p with None -> "nil" | Some p -> show_bits p
+
+let kvh s = match String.split_on_char ':' s with
+  | [k; v] -> ((z_of_hex k, z_of_hex v), true)
+  | [k; v; "n"] -> ((z_of_hex k, z_of_hex v), false)
+  | _ -> failwith "kvh"
 
 let kv s = match String.split_on_char ':' s with
   | [k; v] -> (z_of_hex k, z_of_hex v) | _ -> failwith "kv"
@@ -45,6 +59,20 @@ let () =
         print_endline ("canon " ^ (if List.for_all (t_canon h) trees then "t" else "f"));
         print_endline ("spec " ^ show_term (t_spec_root hf h (abs_run ops)));
         ignore last
+    | "trie1" :: hf :: h :: ops ->
+        let hf = if hf = "ped" then (fun a b -> TPed (a, b)) else (fun a b -> TPos2 (a, b)) in
+        let h = nat_of_int (int_of_string h) in
+        let ops = List.map kvh ops in
+        let (res, fin) = t1_run hf h t1_empty ops in
+        List.iter (fun r -> print_endline (match r with
+          | T1Root t -> "root " ^ show_term t | T1Skip -> "skip" | T1Err -> "error")) res;
+        (match fin with
+         | None -> ()
+         | Some st ->
+             print_endline ("rootkey " ^ show_obits (t1_root_key st));
+             let rows = List.map (fun (((k, l), r), v) ->
+               (show_bits k, "node " ^ show_bits k ^ " " ^ show_obits l ^ " " ^ show_obits r ^ " " ^ show_term v)) (t1_dump st) in
+             List.iter (fun (_, s) -> print_endline s) (List.sort (fun (a, _) (b, _) -> compare a b) rows))
     | "state" :: ver :: rest ->
         let blocks = List.map words (String.split_on_char '|' (String.concat " " rest)) in
         let ds = List.map parse_block blocks in
